@@ -194,12 +194,11 @@ def same_response(real, spec) -> bool:
     return landings(real.data, [tuple(e.path) for e in (real.errors or [])]) == landings(data, errors)
 
 
-def one_to_one(n: int, k0: int, k1: int, k2: int, id0: int, id1: int, fail_at: int, room: Optional[int], c0: int, c1: int, c2: int,
-               *, doc: int, source_kind: int, name_async: bool) -> bool:
+def one_to_one(k0: int, k1: int, k2: int, id0: int, id1: int, fail_at: int, room: Optional[int], c0: int, c1: int, c2: int,
+               *, doc: int, source_kind: int, name_async: bool, n: int) -> bool:
     """Exactly one response per event, in order, each equal to executing the selection set with
     the event as root value; a source failure surfaces after the earlier responses; the stream
     ends exactly when the source ends; errors of one event never leak into another response."""
-    n = forked(n, 0, 4)
     kinds = [forked(k0, 0, 6), forked(k1, 0, 6), forked(k2, 0, 6)][:n]
     fail_at = forked(fail_at, -1, n + 1)
     room_c = None if room is None else forked(room, 0, 3)
@@ -283,26 +282,27 @@ ASSUMPTIONS = [
 
 def obligations(tier):
     th = tier == "thorough"
-    B = 1800 if th else 100
+    B = 1800 if th else 60
     obs = []
     for doc in range(3):
         for sk in range(4):
             for na in (False, True):
                 if doc == 1 and na:
                     continue
-                obs.append(dict(fn="one_to_one", cell=dict(doc=doc, source_kind=sk, name_async=na), budget_s=B, expect_confirm=th))
+                for n in range(4):
+                    obs.append(dict(fn="one_to_one", cell=dict(doc=doc, source_kind=sk, name_async=na, n=n), budget_s=B, expect_confirm=th or n < 3))
         obs.append(dict(fn="creation_failure", cell=dict(doc=doc), budget_s=B))
     obs.append(dict(fn="variables_rejected", cell=dict(doc=0), budget_s=B))
     return obs
 
 
 def corpus():
-    base = dict(n=3, k0=0, k1=1, k2=2, id0=0, id1=1, fail_at=-1, room=None, c0=0, c1=0, c2=0)
+    base = dict(k0=0, k1=1, k2=2, id0=0, id1=1, fail_at=-1, room=None, c0=0, c1=0, c2=0)
     for doc in range(3):
         for sk in range(4):
-            yield "one_to_one", dict(doc=doc, source_kind=sk, name_async=False), dict(base)
-            yield "one_to_one", dict(doc=doc, source_kind=sk, name_async=doc != 1), dict(base, k0=3, k1=4, k2=5, fail_at=2, room=2)
-            yield "one_to_one", dict(doc=doc, source_kind=sk, name_async=False), dict(base, n=0, fail_at=0)
+            yield "one_to_one", dict(doc=doc, source_kind=sk, name_async=False, n=3), dict(base)
+            yield "one_to_one", dict(doc=doc, source_kind=sk, name_async=doc != 1, n=3), dict(base, k0=3, k1=4, k2=5, fail_at=2, room=2)
+            yield "one_to_one", dict(doc=doc, source_kind=sk, name_async=False, n=0), dict(base, fail_at=0)
         for c in range(1, 7):
             yield "creation_failure", dict(doc=doc), dict(creation=c, c0=0)
     yield "variables_rejected", dict(doc=0), dict(kind=0)
